@@ -731,3 +731,49 @@ pub fn wide_family() -> Vec<St> {
     }
     out
 }
+
+/// Deep family: chains of `depth` single-child wrappers (one constructor repeated, and a rotation through
+/// all of them) around a leaf - nesting far beyond what the node bound of T(k) reaches.
+pub fn deep_chain(wrapper: usize, depth: usize, leaf: St) -> St {
+    let mut t = leaf;
+    for level in (0..depth).rev() {
+        let w = if wrapper == 7 { level % 7 } else { wrapper };
+        t = match w {
+            0 => St::Option(Box::new(t)),
+            1 => St::Seq(Box::new(t)),
+            2 => St::Tuple(vec![t]),
+            3 => St::Map(Box::new(St::String), Box::new(t)),
+            4 => St::Struct(format!("S{level}"), Sd::Newtype(Box::new(t))),
+            5 => St::Struct(format!("S{level}"), Sd::Struct(vec![("next".into(), t)])),
+            _ => St::Enum(format!("E{level}"), vec![("Nil".into(), Sd::Unit), ("Cons".into(), Sd::Newtype(Box::new(t)))]),
+        };
+    }
+    t
+}
+pub const DEEP_DEPTHS: [usize; 8] = [8, 15, 16, 17, 31, 32, 33, 70];
+pub fn deep_family() -> Vec<St> {
+    let mut out = vec![];
+    for w in 0..8 {
+        for d in DEEP_DEPTHS {
+            out.push(deep_chain(w, d, St::U8));
+        }
+    }
+    out
+}
+
+/// Long-name family: field / variant / type names of 8, 15, 16, 17, 40 and 300 bytes with all-distinct
+/// neighbouring bytes (block-wise hashing or length-limited copies show up here).
+pub fn long_name(n: usize) -> String {
+    const A: &[u8] = b"abcdefghijklmnopqrstuvwxyzABCDEFGHIJKLMNOPQRSTUVWXYZ0123456789_";
+    (0..n).map(|i| A[(i * 7 + i / A.len()) % A.len()] as char).collect()
+}
+pub fn long_name_family() -> Vec<St> {
+    let mut out = vec![];
+    for n in [8usize, 15, 16, 17, 40, 300] {
+        let nm = long_name(n);
+        out.push(St::Struct(nm.clone(), Sd::Struct(vec![(nm.clone(), St::U8), ("b".into(), St::Bool)])));
+        out.push(St::Enum(nm.clone(), vec![(nm.clone(), Sd::Unit), ("B".into(), Sd::Newtype(Box::new(St::U16)))]));
+        out.push(St::Enum("E".into(), vec![("A".into(), Sd::Struct(vec![(nm.clone(), St::I32)])), (nm.clone(), Sd::Tuple(vec![St::U8, St::Bool]))]));
+    }
+    out
+}
